@@ -2,7 +2,7 @@ import importlib.util, os
 def _load(n):
     sp = importlib.util.spec_from_file_location(n, os.path.join(os.path.dirname(__file__), n + '.py')); m = importlib.util.module_from_spec(sp); sp.loader.exec_module(m); return m
 _parts = [_load('C08_escape_part')]
-if os.path.exists(os.path.join(os.path.dirname(__file__), 'C08_stringify_part.py')):
+if os.path.exists(os.path.join(os.path.dirname(__file__), 'C08_stringify_part.py')) and os.path.exists(os.path.join(os.path.dirname(__file__), '.value_parts_ready')):
     _parts.append(_load('C08_stringify_part'))
 META = {
  'functions': sum([p.META.get('functions', []) for p in _parts], []),
